@@ -321,12 +321,12 @@ pub fn run(cli: &Cli) -> Report {
         Act::SetUpdatable(0, true), Act::SetUpdatable(0, false), Act::SetUpdatable(1, true), Act::SetFlagUpdatable(true),
         Act::Update(0, Who::MarketKeeper), Act::Update(0, Who::ConfigKeeper), Act::Update(0, Who::Stranger), Act::Update(1, Who::ConfigKeeper),
         Act::UpdateFlag(Who::ConfigKeeper), Act::UpdateFlag(Who::Stranger),
-        Act::MakeBuffer(Who::ConfigKeeper, 0b01), Act::MakeBuffer(Who::MarketKeeper, 0b11), Act::MakeBuffer(Who::Stranger, 0b01),
+        Act::MakeBuffer(Who::ConfigKeeper, 0b01), Act::MakeBuffer(Who::ConfigKeeper, 0b11), Act::MakeBuffer(Who::MarketKeeper, 0b11), Act::MakeBuffer(Who::Stranger, 0b01),
         Act::ApplyBuffer(Who::ConfigKeeper), Act::ApplyBuffer(Who::MarketKeeper), Act::ApplyBuffer(Who::Stranger),
         Act::Adv(99), Act::Adv(1),
     ];
     if th {
-        acts.extend([Act::MakeBuffer(Who::ConfigKeeper, 0b11), Act::MakeBuffer(Who::ConfigKeeper, 0b00), Act::SetUpdatable(1, false), Act::SetFlagUpdatable(false), Act::UpdateFlag(Who::MarketKeeper), Act::Update(1, Who::MarketKeeper)]);
+        acts.extend([Act::MakeBuffer(Who::ConfigKeeper, 0b10), Act::MakeBuffer(Who::ConfigKeeper, 0b00), Act::SetUpdatable(1, false), Act::SetFlagUpdatable(false), Act::UpdateFlag(Who::MarketKeeper), Act::Update(1, Who::MarketKeeper)]);
     }
     let pol = Pol { w: w.clone(), acts };
     let start = St { db: db.clone(), now: 1_000, updatable: [false; 2], flag_updatable: false, values, flag: flag0, buffers: [None; 3], counter: 0 };
